@@ -1182,6 +1182,9 @@ func (fr *frame) invariantsOf(h *ssa.BasicBlock) []*Clause {
 	var out []*Clause
 	for _, c := range fr.con.Invariants {
 		if c.Loop == ord && c.Kind == "invariant" {
+			if p, only := fr.con.PropOnly[c.Label]; only && p != fr.x.prop {
+				continue // restrict PROP: this clause belongs to another property's claim
+			}
 			out = append(out, c)
 		}
 	}
@@ -1241,6 +1244,9 @@ func (fr *frame) stepsOf(h *ssa.BasicBlock) []*Clause {
 	var out []*Clause
 	for _, c := range fr.con.Invariants {
 		if c.Loop == ord && c.Kind == "step" {
+			if p, only := fr.con.PropOnly[c.Label]; only && p != fr.x.prop {
+				continue
+			}
 			out = append(out, c)
 		}
 	}
